@@ -226,4 +226,9 @@ def finish(args: Args, level, coverage, assumptions, violations, inconclusive, t
 
 def load_replay(path):
     with open(path) as f:
-        return json.load(f)
+        rec = json.load(f)
+    if isinstance(rec, dict) and rec.get("hist"):
+        from . import runs
+
+        runs.set_default_history(rec["hist"])  # the recorded point is replayed on a network with the recorded construction history
+    return rec
